@@ -27,8 +27,93 @@ def G(k: int) -> Sym:
     return Sym(f"<g{k}>")
 
 
-def callback_of(prog, fi: FuncInfo, call: ast.Call) -> FuncInfo | None:
-    """The function given as replacement to PATTERN.sub(cb, text) / re.sub(pattern, cb, text)."""
+class Callback:
+    """A resolved replacement callback: the function that receives the match, the name of its match parameter, and the
+    values bound when the callback object was built (functools.partial arguments, constructor arguments of a callable
+    class) as constant strings where they are constants."""
+
+    def __init__(self, func: FuncInfo, mparam: str, bound: dict[str, object] | None = None, how: str = "function") -> None:
+        self.func, self.mparam, self.bound, self.how = func, mparam, bound or {}, how
+
+    @property
+    def qual(self) -> str:
+        return self.func.qual
+
+
+def _const_str(prog, fi: FuncInfo, e: ast.AST):
+    if isinstance(e, ast.Constant) and isinstance(e.value, str):
+        return e.value
+    if isinstance(e, ast.Name):
+        from ..constfold import Folder, Unknown
+        from ..loader import ConstInfo
+
+        r = prog.repo.lookup(e.id, fi.module, fi)
+        if isinstance(r, ConstInfo):
+            try:
+                v = Folder(prog.repo).const(r.qual)
+            except Unknown:
+                return None
+            return v if isinstance(v, str) else None
+    return None
+
+
+def resolve_callback(prog, fi: FuncInfo, e: ast.AST, node: Node | None, depth: int = 0) -> Callback | None:
+    """What a callable expression denotes: a (nested or module-level) function, functools.partial(f, ...), an instance of a
+    class with __call__, or a local variable holding one of those."""
+    from ..loader import ClassInfo
+
+    if depth > 3:
+        return None
+    if isinstance(e, ast.Name):
+        r = prog.repo.lookup(e.id, fi.module, fi)
+        if isinstance(r, FuncInfo) and not isinstance(r.node, ast.Lambda) and r.params:
+            return Callback(r, r.params[0])
+        if node is not None:
+            defs = prog.flow(fi).reaching(node, e.id)
+            if len(defs) == 1 and defs[0].kind == "assign" and defs[0].value is not None:
+                return resolve_callback(prog, fi, defs[0].value, defs[0].node, depth + 1)
+        return None
+    if isinstance(e, ast.Call):
+        nm = prog.resolve_call(fi, e)
+        if nm in ("functools.partial", "partial") and e.args:
+            inner = resolve_callback(prog, fi, e.args[0], node, depth + 1)
+            if inner is None or inner.how != "function":
+                return None
+            f = inner.func
+            bound: dict[str, object] = {}
+            params = list(f.params)
+            for p, a in zip(params, e.args[1:]):
+                bound[p] = _const_str(prog, fi, a)
+            for k in e.keywords:
+                if k.arg:
+                    bound[k.arg] = _const_str(prog, fi, k.value)
+            rest = [p for p in params if p not in bound]
+            if not rest:
+                return None
+            return Callback(f, rest[0], bound, "partial")
+        r = prog.repo.resolve_expr(e.func, fi.module, fi) if isinstance(e.func, (ast.Name, ast.Attribute)) else None
+        if isinstance(r, ClassInfo):
+            call = prog.repo.find_method(r, "__call__")
+            if call is None or len(call.params) < 2:
+                return None
+            # constructor arguments -> attributes (dataclass fields in order, or `self.x = x` in __init__)
+            fields = [st.target.id for st in r.node.body if isinstance(st, ast.AnnAssign) and isinstance(st.target, ast.Name)]
+            init = prog.repo.find_method(r, "__init__")
+            names = fields
+            if init is not None and init.cls is r:
+                names = list(init.params[1:])
+            bound = {}
+            for p, a in zip(names, e.args):
+                bound[f"{call.params[0]}.{p}"] = _const_str(prog, fi, a)
+            for k in e.keywords:
+                if k.arg:
+                    bound[f"{call.params[0]}.{k.arg}"] = _const_str(prog, fi, k.value)
+            return Callback(call, call.params[1], bound, "instance")
+    return None
+
+
+def callback_of(prog, fi: FuncInfo, call: ast.Call) -> Callback | None:
+    """The replacement given to PATTERN.sub(cb, text) / re.sub(pattern, cb, text), resolved."""
     cands: list[ast.AST] = []
     if isinstance(call.func, ast.Attribute) and call.func.attr in ("sub", "subn"):
         nm = prog.resolve_call(fi, call)
@@ -38,11 +123,11 @@ def callback_of(prog, fi: FuncInfo, call: ast.Call) -> FuncInfo | None:
         elif call.args:
             cands.append(call.args[0])
     cands += [k.value for k in call.keywords if k.arg == "repl"]
+    node = prog.flow(fi).node_of(call)
     for c in cands:
-        if isinstance(c, ast.Name):
-            r = prog.repo.lookup(c.id, fi.module, fi)
-            if isinstance(r, FuncInfo):
-                return r
+        cb = resolve_callback(prog, fi, c, node)
+        if cb is not None:
+            return cb
     return None
 
 
@@ -100,26 +185,31 @@ def flatten(v) -> tuple:
     return tuple(out)
 
 
-def callback_outcomes(prog, cb: FuncInfo, present: dict[int, bool]) -> set[tuple]:
-    """The strings (as part tuples) `cb` can return when the optional groups took part in the match as `present` says."""
+def callback_outcomes(prog, cb, present: dict[int, bool]) -> set[tuple]:
+    """The strings (as part tuples) the callback can return when the optional groups took part in the match as `present`
+    says. `cb` is a Callback (or a plain FuncInfo whose first parameter is the match)."""
+    if isinstance(cb, FuncInfo):
+        cb = Callback(cb, cb.params[0])
+    f, mparam = cb.func, cb.mparam
 
     def atom(leaf: ast.AST, _aliases: frozenset) -> bool | None:
         if isinstance(leaf, ast.Compare) and len(leaf.ops) == 1 and isinstance(leaf.comparators[0], ast.Constant) and leaf.comparators[0].value is None \
-                and isinstance(leaf.ops[0], (ast.Is, ast.IsNot)) and dec._cur is not None and dec._cur[0] is cb:
-            k = group_index(prog, cb, leaf.left, dec._cur[1])
+                and isinstance(leaf.ops[0], (ast.Is, ast.IsNot)) and dec._cur is not None and dec._cur[0] is f:
+            k = group_index(prog, f, leaf.left, dec._cur[1], mparam)
             if k in present:
                 return present[k] if isinstance(leaf.ops[0], ast.IsNot) else not present[k]
         return None
 
     def value_leaf(cur: FuncInfo, e: ast.AST, _aliases: frozenset):
-        if cur is cb and dec._cur is not None and dec._cur[0] is cb and isinstance(e, (ast.Call, ast.Subscript, ast.Name)):
-            k = group_index(prog, cb, e, dec._cur[1])
+        if cur is f and dec._cur is not None and dec._cur[0] is f and isinstance(e, (ast.Call, ast.Subscript, ast.Name)):
+            k = group_index(prog, f, e, dec._cur[1], mparam)
             if k is not None:
                 return G(k)
         return None
 
     dec = Decider(prog, atom, value_leaf=value_leaf)
-    res = dec.func_outcomes(cb, frozenset())
+    env0 = {k: frozenset({v}) for k, v in cb.bound.items() if isinstance(v, str)}
+    res = dec.func_outcomes(f, frozenset(), env0=env0)
     return {flatten(v) if v is not None else (UNKNOWN,) for v in res}
 
 
